@@ -217,7 +217,7 @@ def t2Start (c : Chunk) : M Unit := do
 /-- `_data_channel_closed(stream_id)`. -/
 def dcClosed (sid : Nat) : M Unit := do
   match dictGet (← getE).dataChannels sid with
-  | none => crash "KeyError"
+  | none => pure ()                       -- `self._data_channels.pop(stream_id, None)` (fix C05a)
   | some i =>
     modE fun e => { e with dataChannels := dictDel e.dataChannels sid }
     setReady i 3
@@ -309,7 +309,8 @@ def setState (st : AState) : M Unit := do
     queueTask .flush "data_channel_flush"
   else if st = .closed then
     t1Cancel; t2Cancel; t3Cancel; rcCancel
-    modE fun e => { e with state := "closed" }
+    -- a stream reset request does not outlive its association (fix C05a)
+    modE fun e => { e with state := "closed", reconfigQueue := [], reconfigRequest := none }
     let e ← getE
     for (sid, _) in e.dataChannels do dcClosed sid
     let e ← getE
@@ -424,6 +425,8 @@ def receiveData (c : RChunk) : M Unit := do
   setE { e with rx := some rx' }
   if dup then return
   let s ← getInStream c.sid
+  -- still waiting in the reassembly queue: a duplicate, whatever `_mark_received` says (fix C05a)
+  if s.reasm.any (fun r => r.tsn == c.tsn) then return
   let s ← liftO (s.addChunk c)
   modE fun e => { e with rwnd := e.rwnd - c.data.length }
   let (msgs, s') ← liftO s.popMessages
